@@ -83,6 +83,7 @@ pub fn merchant_variant(base: u64, part: u8) -> Arc<Merchant> {
 /// A merchant equal to `base` in everything except ONE group element (moved by a generator):
 /// part 0 = an element of the signing public key, 1 = of the revocation-commitment parameters,
 /// 2 = of the range parameters' public key. `None` if the library's decoders refuse such a value.
+#[cfg(feature = "full")]
 pub fn merchant_element_variant(base: u64, part: u8, sel: u64) -> Option<Arc<Merchant>> {
     use crate::engine::wire::Kind;
     use crate::props::c08::{change_atom, AtomChange};
